@@ -13,5 +13,9 @@ func guardFor(prop string, p prog.Program) prog.Guard {
 	if os.Getenv("VERIF_NO_EXCLUSIONS") != "" {
 		return nil
 	}
+	switch prop {
+	case "C01", "C02", "C03":
+		return prog.Chain(prog.GuardF2)
+	}
 	return nil
 }
